@@ -601,6 +601,25 @@ pub(crate) fn contract_partial_delta(_cs: &ClusterState, _digest: &Digest, mtu: 
 
 // ---------------------------------------------------------------------------------------------
 // harness declaration macros (instances are generated per run by /verif/vlib/plan.py)
+/// C11 (integer part): NodeState::try_set_heartbeat on a copy whose stored heartbeat is any u64: it reports fresh evidence iff
+/// the value is strictly higher than a known (non-initial) one; equal / lower / replayed values are neither evidence nor stored
+fn c11_hb_kernel() {
+    let mut ns = empty_state();
+    let (h0, h1, h2): (u64, u64, u64) = (kani::any(), kani::any(), kani::any());
+    let first = ns.try_set_heartbeat(Heartbeat(h0));
+    assert!(!first, "C11: the first heartbeat observed for a member counted as liveness evidence");
+    let second = ns.try_set_heartbeat(Heartbeat(h1));
+    let stored1 = ns.heartbeat().0;
+    let third = ns.try_set_heartbeat(Heartbeat(h2));
+    let stored2 = ns.heartbeat().0;
+    kani::cover!(second && third, "two fresh heartbeats in a row");
+    kani::cover!(h0 > 0 && h1 < h0 && !second, "lower heartbeat after a known one");
+    assert!(second == (h0 != 0 && h1 > h0), "C11: a heartbeat counts as fresh evidence iff it is strictly higher than a known non-initial one (equal, lower, replayed values never do)");
+    assert!(stored1 == if h0 == 0 || h1 > h0 { h1 } else { h0 }, "C03/C11: stored heartbeat must only rise, to the reported value");
+    assert!(third == (stored1 != 0 && h2 > stored1), "C11: a heartbeat counts as fresh evidence iff it is strictly higher than the highest one seen");
+    assert!(stored2 == if stored1 == 0 || h2 > stored1 { h2 } else { stored1 }, "C03/C11: stored heartbeat must only rise, to the reported value");
+    std::mem::forget(ns);
+}
 macro_rules! h_plain { ($name:ident, $unw:expr, $body:expr) => {
     #[kani::proof]
     #[kani::unwind($unw)]
